@@ -83,7 +83,7 @@ def rule_R1(P, rep):
     ok = len(cs) == 1 and [F.render(a) for a in F.nodes[cs[0][1]]["a"]][1:] == ["p_cond", "p_mutex"]
     rep.ob("R1", "ABT_cond_wait forwards (p_cond, p_mutex) to ABTI_cond_wait", ok, "", loc="%s:%d" % (F.file, F.line),
            site="ABT_cond_wait/forward")
-    rep.min_instances("R1", 8)
+    rep.min_instances("R1", 7)
 
 
 def rule_R2(P, rep):
